@@ -9,11 +9,21 @@ class EventSourceMixin:
     _get_event_managers: t.Callable[..., t.List[t.Type[EventManagerLike]]]
 
     async def _emit(self, event_name: str, **kwargs: t.Any) -> None:
+        # Every manager is told about the event, also when a manager before it fails in its callback: the failure
+        # (the first one) is raised after the others have been notified.
+        first_error = None
+
         for mgr in self._get_event_managers():
             callback = getattr(mgr, event_name, None)
 
             if callback:
-                await callback(ctx=self, **kwargs)
+                try:
+                    await callback(ctx=self, **kwargs)
+                except Exception as ex:  # noqa: PERF203
+                    first_error = first_error or ex
+
+        if first_error is not None:
+            raise first_error
 
     async def emit_on_node_start(self, node_id: NodeId) -> None:
         await self._emit('on_node_start', node_id=node_id)
